@@ -1021,6 +1021,18 @@ def unsorted_keys(rng, n, ints=False):
 
 
 def gen_dict_graph(rng):
+  """`_gen_dict_graph_once`, redrawn (from the same rng, so still deterministic per seed) until the dicts really hold
+  at least two Variables: a draw whose dict entries are all arrays / empty nested dicts has nothing to alias"""
+  while True:
+    try:
+      G = _gen_dict_graph_once(rng)
+    except IndexError:  # no Variable was created by this draw
+      continue
+    if sum(1 for o in G['heap'] if 'vt' in o) >= 2:
+      return G
+
+
+def _gen_dict_graph_once(rng):
   """a node holding a plain Python dict attribute (also nested dicts, a dict inside a list) with >= 2 Variables whose keys
   were inserted in non-sorted order and whose values are pairwise different; an alias attribute that sorts AFTER the dict
   lets the body update one of them"""
